@@ -366,6 +366,18 @@ fn summary_strategy() -> impl Strategy<Value = SummarySpec> {
     })
 }
 
+/// Names of extra streams: mostly packable identifiers; some carry the
+/// U+0005 prefix of the property-set streams without being one of the four
+/// reserved names (other producers store e.g. their own property sets that
+/// way), some hold characters outside the packing alphabet.
+fn stream_name() -> impl Strategy<Value = String> {
+    prop_oneof![
+        6 => "[a-zA-Z0-9._]{1,10}".prop_map(|s| s),
+        1 => "[a-zA-Z0-9._]{1,10}".prop_map(|s| format!("\u{5}{s}")),
+        1 => "[a-zA-Z0-9._]{0,4}".prop_map(|s| format!("{s} -{s}é")),
+    ]
+}
+
 pub fn db_strategy() -> impl Strategy<Value = AbsDb> {
     db_strategy_with(0.06)
 }
@@ -376,7 +388,7 @@ pub fn db_strategy() -> impl Strategy<Value = AbsDb> {
 pub fn db_strategy_with(long_weight: f64) -> impl Strategy<Value = AbsDb> {
     let pool = (any::<bool>(), prop_oneof![3 => Just(0u8), 1 => Just(3), 1 => Just(5)], prop_oneof![3 => Just(0u8), 1 => Just(2), 1 => Just(4)], prop_oneof![3 => Just(0u8), 1 => Just(3)], 1u8..3, prop_oneof![48 => Just(0u32), 1 => Just(65_600u32)])
         .prop_map(|(long_refs, hole_every, dup_every, overcount_every, overcount_by, leading_holes)| PoolOpts { long_refs: long_refs || leading_holes > 0, hole_every, dup_every, overcount_every, overcount_by, leading_holes });
-    (0usize..PAGES.len() + 1, 1usize..5, prop::bool::weighted(long_weight), pool, prop::bool::weighted(0.8), summary_strategy(), 0u8..3, prop::collection::vec(("[a-zA-Z0-9._]{1,10}", prop::collection::vec(any::<u8>(), 0..40)), 0..3))
+    (0usize..PAGES.len() + 1, 1usize..5, prop::bool::weighted(long_weight), pool, prop::bool::weighted(0.8), summary_strategy(), 0u8..3, prop::collection::vec((stream_name(), prop::collection::vec(any::<u8>(), 0..40)), 0..3))
         .prop_flat_map(|(pi, ntables, long, pool, with_validation, summary, ptype, streams)| {
             let id = if pi == PAGES.len() { 0 } else { PAGES[pi].id };
             let page_id = if id == 0 { 65001 } else { id };
